@@ -1,4 +1,5 @@
-# KF-C15-5 (C15, candidate): IdentManager.current is pickled as it is.  A LockedMachine pickled from INSIDE a
+# Regression for the former KF-C15-5 (C15), FIXED in /repo by 538f6a5 (IdentManager.__getstate__ resets the owner).
+# Before the fix: IdentManager.current was pickled as it is.  A LockedMachine pickled from INSIDE a
 # callback (the machine's contexts are entered, _ident.current == get_ident()) yields a copy whose IdentManager
 # still names the pickling thread as the owner of its lock although the copy's PicklableLock is free.  The copy
 # therefore enters no lock for events of that thread: while ANOTHER thread holds the copy's lock, an event on the
@@ -57,4 +58,4 @@ for cls in (LockedMachine, LockedHierarchicalMachine, LockedGraphMachine):
     copy_waits = blocked_while_other_thread_holds_lock(c)
     print('    event waits for the lock held by another thread: original', orig_waits, '| copy', copy_waits)
     assert orig_waits
-    assert owner_kept and not copy_waits              # the finding (both flip when IdentManager resets on pickling)
+    assert not owner_kept and copy_waits              # FIXED behaviour (before 538f6a5: owner kept, copy did not wait)
